@@ -41,6 +41,12 @@ def run(ctx):
         raise InfraError("negative control MC_prefix.cfg was not rejected by TLC: the invariants are vacuous")
     ctx.note("tlc_negative_control", {"cfg": "MC_prefix.cfg", "violated": neg.violated,
                                       "meaning": "pre-repair behaviour; expected to be rejected"})
+    # negative control 2: a typed fast path that keeps the FIRST of two top-level "m" keys while every
+    # other decoder is last-wins must break ReplayOK / ReplicaOK.
+    neg2 = ctx.tlc("writeauth", "WriteAuth", "MC_dupfirst.cfg", allow_violation=True, timeout=900, workers=2)
+    if not neg2.violated:
+        raise InfraError("negative control MC_dupfirst.cfg was not rejected by TLC")
+    ctx.note("tlc_negative_control_dup", {"cfg": "MC_dupfirst.cfg", "violated": neg2.violated})
 
     gen = ctx.tlc("writeauth", "WriteAuth", "Gen_%s.cfg" % size, timeout=1800, workers=4)
     if not gen.traces:
@@ -71,9 +77,9 @@ def run(ctx):
         if not r["files_per_leg"].get(leg):
             raise InfraError("leg %s stored nothing: the binding is vacuous" % leg)
     ctx.count(evaluations=r["requests"] * 3,
-              nontrivial_keys=["%s|%s|%s|%s|%s" % (s["form"], s["hdr"], s["q"], s["meas"],
+              nontrivial_keys=["%s|%s|%s|%s|%s" % (s["form"] + "/" + s["dup"], s["hdr"], s["q"], s["meas"],
                                                   ",".join("%s:%s:%s" % (d["name"], d["pos"], d["vt"]) for d in s["decoys"]))
-                               for s in scs if s["decoys"] or s["rejected"]])
+                               for s in scs if s["decoys"] or s["rejected"] or s["dup"] != "none"])
     ctx.traces_validated(len(scs))
     ctx.note("requests", r["requests"])
     ctx.note("accepted", r["accepted"])
@@ -85,7 +91,8 @@ def run(ctx):
     ctx.note("exhaustive", True)
     ctx.note("rule", "9 request forms x header db {none, prod, other} x query db {none, prod, other} x measurement set "
              "{allowed, denied, mixed, two allowed} x payload names {database,_database,measurement,_measurement,m} as "
-             "tag/field/column with string or integer value, singly and in pairs (%s); three legs per request"
+             "tag/field/column with string or integer value, singly and in pairs (%s); for single-map MessagePack forms "
+             "also duplicate top-level keys (m first/last differing both ways, database/_database); three legs per request"
              % ("(integer, string) pairs of one family" if ctx.quick() else "all pairs of distinct names"))
     for s in (r.get("samples") or []):
         ctx.sample(s)
